@@ -272,6 +272,57 @@ func TestC15(t *testing.T) {
 				}
 			}
 		}
+		// the other profile-driven reflection access of the decoder: a
+		// compressed-timestamp header stores the computed time in the
+		// message's timestamp field. Every known message, with and without a
+		// field of its own on the wire, after a full timestamp.
+		for _, m := range prof.MsgNums() {
+			mi := prof.Table().Msgs[m]
+			ft := fit.FileTypeActivity
+			if h, ok := host[m]; ok {
+				ft = h
+			}
+			var first *fitmodel.FieldInfo
+			for _, n := range prof.FieldNums(m) {
+				if fi := mi.Fields[n]; fi != nil && n != 253 {
+					first = fi
+					break
+				}
+			}
+			for variant := 0; variant < 2; variant++ {
+				def := fitmodel.Rec{IsDef: true, Local: 2, BigEndian: variant == 1, Global: m}
+				var payload []byte
+				if variant == 1 && first != nil {
+					bt := fitmodel.MustBase(first.Base)
+					size := bt.Size
+					if bt.String || first.Array {
+						size = bt.Size * first.Length
+						if bt.String {
+							size = first.Length
+						}
+					}
+					if size > 0 && size <= 255 {
+						def.Fields = []fitmodel.FieldDef{{Num: first.Num, Size: byte(size), Base: first.Base}}
+						payload = bytes.Repeat([]byte{0x01}, size)
+					}
+				}
+				s := &fitmodel.Stream{HeaderSize: 12, Proto: 0x20, Recs: []fitmodel.Rec{
+					{IsDef: true, Global: 0, Fields: []fitmodel.FieldDef{{Num: 0, Size: 1, Base: 0}}}, {Raw: []byte{byte(ft)}},
+					{IsDef: true, Local: 1, Global: 20, Fields: []fitmodel.FieldDef{{Num: 253, Size: 4, Base: 0x86}}},
+					{Local: 1, Raw: []byte{0x00, 0xCA, 0x9A, 0x3B}},
+					def,
+					{Local: 2, Compressed: true, TimeOffset: 7, Raw: payload},
+					{Local: 2, Compressed: true, TimeOffset: 3, Raw: payload},
+				}}
+				dyn++
+				var err error
+				if p := oracle.Catch(func() { _, err = fit.Decode(bytes.NewReader(s.Bytes())) }); p != nil {
+					fail(int(m), -1, "decode", fmt.Sprintf("decoding a compressed-timestamp record of message %d (%s) panics: %v", m, mi.Name, p))
+				} else if err != nil {
+					fail(int(m), -1, "decode", fmt.Sprintf("decoding a compressed-timestamp record of message %d (%s) fails: %v", m, mi.Name, err))
+				}
+			}
+		}
 		for _, ft := range prof.FileTypes {
 			f, err := fit.NewFile(ft, fit.NewHeader(fit.V20, true))
 			if err != nil {
